@@ -57,7 +57,8 @@ func run(r *engine.Run, only string) {
 	}
 	r.Required = required
 	deadline := r.Deadline(4*time.Minute, 40*time.Minute)
-	t := engine.NewTally()
+	raw := engine.NewTally()
+	t := newLimited(raw)
 	want := func(s string) bool { return only == "" || only == s }
 
 	t0 := time.Now()
@@ -85,7 +86,7 @@ func run(r *engine.Run, only string) {
 	defer e.pool.close()
 	for _, sec := range []struct {
 		name string
-		fn   func(*env, *engine.Tally)
+		fn   func(*env, tally)
 	}{
 		{"contents", runContents}, {"direct", runDirect}, {"internal", runInternal}, {"tunnel", runTunnel}, {"transition", runTransition},
 	} {
@@ -97,7 +98,10 @@ func run(r *engine.Run, only string) {
 		sec.fn(e, t)
 		fmt.Printf("[C11] %s: evaluations=%d violations(total)=%d (%.1fs)\n", sec.name, t.Evals-before, t.Violations(), time.Since(t1).Seconds())
 	}
-	t.MergeInto(r)
+	raw.MergeInto(r)
+	if tot := t.totals(); len(tot) > 0 {
+		r.Notes = append(r.Notes, "violation occurrences before the per-fingerprint cap: "+strings.Join(tot, "; "))
+	}
 	if only != "" {
 		r.Required = nil
 	}
